@@ -18,6 +18,8 @@ import (
 
 const c03Decls = `package p
 
+import "time"
+
 type ID int64
 
 type Level int
@@ -70,6 +72,8 @@ type Doc struct {
 	ByLvl  map[Level]bool
 	In     Inner
 	E      Empty
+	At     time.Time
+	Ats    []time.Time
 	Grid   [2]Pair
 	hidden int
 	Skip   int ` + "`json:\"-\"`" + `
@@ -574,7 +578,7 @@ func HC03_exec() {
 	}
 	text := "package p\n\nconst tsText = " + fmt.Sprintf("%q", tsText) + "\n"
 	errs := vfExec("example.com/mod/p", []string{"/m/p/p.go", "/m/p/gen.go", "/m/p/ts.go", "/m/p/checker.go", "/m/p/check.go"},
-		[]string{c03Decls, goText, text, c03Checker, c03Tier(c03Check)}, nil, "Check")
+		[]string{c03Decls, execAddImports(goText, "time"), text, c03Checker, c03Tier(c03Check)}, nil, "Check")
 	if len(errs) > 0 {
 		vfObserve("error", errs[0])
 	}
